@@ -57,6 +57,13 @@ def base_doc(rng, profile, latlon_p=0.0, sqlite_p=0.15, pickle_p=0.06, fault_kin
     offset = (0.0, 0.0)
     if not latlon and rng.random() < big_p:
         offset = (float(rng.randrange(10 ** 6, 10 ** 7)), float(rng.randrange(10 ** 6, 2 * 10 ** 7)))
+    want_shallow = "noise" not in trace_kw and hs.random() < (0.25 if offset != (0.0, 0.0) else 0.05)
+    if want_shallow and not latlon and big_p and offset == (0.0, 0.0) and hs.random() < 0.5:
+        offset = (float(hs.randrange(10 ** 6, 10 ** 7)), float(hs.randrange(10 ** 6, 2 * 10 ** 7)))
+    if want_shallow and "shape" not in world_kw and not huge and hs.random() < 0.7:
+        # a chain of collinear roads: observations several roads apart can only be linked through non-emitting states
+        world_kw["shape"] = "line"
+        world_kw["n"] = max(world_kw.get("n", 0), hs.randint(5, 9))
     world = gen.gen_world(rng, unit=unit, offset=offset, **world_kw)
     if backend == "scan":
         world["linked"] = []       # the user-written map has no notion of linked parallel edges
@@ -68,6 +75,21 @@ def base_doc(rng, profile, latlon_p=0.0, sqlite_p=0.15, pickle_p=0.06, fault_kin
             cfg["max_lattice_width"] = hs.choice([4, 8, 12, 20])
         if cfg.get("non_emitting_states") and hs.random() < 0.5:
             cfg.pop("ne_maxnb", None)
+    if cfg.get("non_emitting_states") and want_shallow:
+        # observations a hair off the road, several roads apart: the line between two observations crosses the roads
+        # it skips at a very shallow angle (nearly parallel segments in the non-emitting geometry), most often on maps
+        # in projected coordinates of magnitude 1e6-1e7
+        trace_kw["noise"] = hs.choice([0.002, 0.005, 0.01, 0.02]) * unit
+        trace_kw["exact_p"] = 0.0
+        trace_kw.setdefault("outlier_p", 0.0)
+        if hs.random() < 0.6:
+            for k_ in ("max_dist", "max_dist_init", "min_prob_norm"):
+                cfg.pop(k_, None)
+        if "sparse" not in trace_kw and hs.random() < 0.8:
+            trace_kw["sparse"] = True
+        shallow = True
+    else:
+        shallow = False
     if cfg.get("non_emitting_states") and "sparse" not in trace_kw and rng.random() < 0.4:
         trace_kw["sparse"] = True
     trace = gen.gen_trace(rng, world, **trace_kw)
@@ -102,6 +124,8 @@ def base_doc(rng, profile, latlon_p=0.0, sqlite_p=0.15, pickle_p=0.06, fault_kin
          "backend": backend, "log": "ERROR"}
     if huge:
         d["huge"] = True
+    if shallow:
+        d["shallow"] = True
     if trace2 is not None and any(op.get("alt") for op in ops):
         d["trace2"] = trace2
     if backend == "inmem_api" and rng.random() < 0.6:
@@ -193,6 +217,8 @@ def result(vs, doc, sess, ctx=None, extra_sig="", stats=None):
             st[k] = st.get(k, 0) + v
     if doc.get("huge"):
         st["probe_town_sized_world"] = 1
+    if doc.get("shallow"):
+        st["probe_shallow_crossings_trace"] = 1
     m = getattr(sess, "matcher", None)
     if m is not None and getattr(m, "lattice", None):
         try:
@@ -884,7 +910,7 @@ def transform_C16(doc):
             if t["salt"] % 4 == 0:
                 new = gen.hyphen_labels(len(labels))
                 r.shuffle(new)
-            elif t["salt"] % 4 == 1:
+            elif t["salt"] % 4 == 1 and len(labels) <= 20:
                 # strings that look like numbers, contain the characters the library joins names with, or differ
                 # only in case or surrounding blanks
                 new = r.sample(["0", "1", "-1", "01", "1.0", "a_b", "a b", "_", "-", "None", "1_2", "b_a", "A", "a", " a",
@@ -1092,9 +1118,15 @@ def gen_C15(rng, tier):
     lat0, lon0 = rng.uniform(-59.5, 59.5), rng.uniform(-179.0, 179.0)
     ops = [{"op": "match", "k": len(trace), "unique": False}]
     faults = gen.gen_faults(rng, 1, kinds=("dup", "clock"))
-    return {"kind": "A", "world": world, "trace": trace, "cfg": cfg, "ops": ops, "faults": faults,
-            "backend": rng.choice(["inmem", "inmem", "inmem_api", "sqlite"]) if isinstance(world["nodes"][0][0], int) else "inmem",
-            "log": "ERROR", "place": [lat0, lon0]}
+    d = {"kind": "A", "world": world, "trace": trace, "cfg": cfg, "ops": ops, "faults": faults,
+         "backend": rng.choice(["inmem", "inmem", "inmem_api", "sqlite"]) if isinstance(world["nodes"][0][0], int) else "inmem",
+         "log": "ERROR", "place": [lat0, lon0]}
+    hs = random.Random(gen.derive("c15-antimeridian", repr(rng.getstate())))
+    if d["backend"] != "sqlite" and hs.random() < 0.08:
+        # the street lies across longitude +-180 (not on the SQLite backend, whose edge index is known to be wrong
+        # there: listed finding D19 of C11)
+        d["place"][1] = hs.choice([179.9996, -179.9996, 179.99995, -179.99998, 180.0])
+    return d
 
 
 def eval_C15(doc):
